@@ -146,8 +146,8 @@ def plain_column(q, e):
     return e == "c1" if q["src"] == "group" else e in ("c1", "c2", "c3")
 
 
-DEV_SEQ = ["aggregate_keys_ignored", "distinct_window_twice", "expr_columns_dropped", "null_equals_all", "ordinal_ignored",
-           "setop_first_column", "unprojected_ignored"]
+DEV_SEQ = ["aggregate_keys_ignored", "distinct_window_twice", "expr_columns_dropped", "index_scan_drops_null_keys", "null_equals_all",
+           "ordinal_ignored", "setop_first_column", "unprojected_ignored"]
 
 
 def _dev_sets():
@@ -175,6 +175,9 @@ def applicable(q, devs):
     if "distinct_window_twice" in devs and not (q["src"] == "plain" and q["dist"] and (q["lim"] != NOLIM or q["off"] != NOLIM)):
         return False
     if "expr_columns_dropped" in devs and all(plain_column(q, e) for e in q["sel"]):
+        return False
+    if "index_scan_drops_null_keys" in devs and not (q.get("ix") and q["src"] == "plain" and q["w"] == "none" and len(ks) == 1
+                                                     and ks[0]["k"] == "e" and ks[0]["x"] == "c2"):
         return False
     return True
 
@@ -254,6 +257,8 @@ def dev_admissible(obs, case, devs):
     else:
         outf = lambda r: r["o"]
     P = [{"o": outf(r), "k": keyf(r)} for r in base]
+    if "index_scan_drops_null_keys" in devs and dirs:
+        P = [r for r in P if r["k"][0] != N]
     nulleq = "null_equals_all" in devs
     if "distinct_window_twice" in devs:
         if nulleq and not any(v == N for r in P for v in r["k"]):
@@ -270,8 +275,9 @@ def dev_admissible(obs, case, devs):
     return admissible(obs, R, classes(R, dirs), q["lim"], q["off"])
 
 
-def verdict(obs, case):
-    """mirror of Verdict(obs, q): ("ok"|"dev"|"bad", sorted list of deviation names)"""
+def verdict(obs, case, ix=False):
+    """mirror of Verdict(obs, q): ("ok"|"dev"|"bad", sorted list of deviation names); ix: q runs on the indexed copy"""
+    case = dict(case, q=dict(case["q"], ix=ix))
     q = case["q"]
     if admissible(obs, case["rows"], [r["c"] for r in case["rows"]], q["lim"], q["off"]):
         return "ok", []
@@ -313,7 +319,7 @@ def to_spec_rows(rows):
     return out
 
 
-def judge(case, res, selftest=False):
+def judge(case, res, selftest=False, ix=False):
     """-> (kind, obs). kind: ok | dev:<names> | shape | count | rows | order | error:<cls> | panic:<cls> | missing"""
     q = case["q"]
     r = res["res"]
@@ -332,7 +338,7 @@ def judge(case, res, selftest=False):
         case = dict(case, rows=rows, det=False)
     if case["det"] and obs == case["ans"]:
         return "ok", obs
-    v, devs = verdict(obs, case)
+    v, devs = verdict(obs, case, ix)
     if v == "ok":
         return "ok", obs
     if v == "dev":
@@ -431,6 +437,8 @@ def reductions(q, ix, n, fam_n):
         out.append((w(lim=NOLIM), ix))
     if q["off"] != NOLIM:
         out.append((w(off=NOLIM), ix))
+    if q["lim"] == 0:
+        out.append((w(lim=1), ix))
     ks = q["keys"]
     for i in reversed(range(len(ks))):
         out.append((w(keys=ks[:i] + ks[i + 1:]), ix))
@@ -440,9 +448,9 @@ def reductions(q, ix, n, fam_n):
     for i, k in enumerate(ks):
         if k["k"] == "ord":
             out.append((w(keys=ks[:i] + [dict(k, k="e", x=q["sel"][int(k["x"]) - 1])] + ks[i + 1:]), ix))
-        if k["k"] == "ord" or k["x"] not in ("c1", "c2", "c3"):
-            for col in ("c2", "c3", "c1"):
-                out.append((w(keys=ks[:i] + [dict(k, k="e", x=col)] + ks[i + 1:]), ix))
+        lateral = q["src"] != "join" or k["k"] == "ord" or k["x"] not in ("c1", "c2", "c3")   # x.id -> y.id is not a simplification
+        if lateral and (k["k"] == "ord" or k["x"] != "c2") and not any(o["k"] == "e" and o["x"] == "c2" for o in ks):
+            out.append((w(keys=ks[:i] + [dict(k, k="e", x="c2")] + ks[i + 1:]), ix))
     full = ["c1", "c2", "c3"]
     if q["sel"] != full:
         nk = [dict(k, k="e", x=q["sel"][int(k["x"]) - 1]) if k["k"] == "ord" else k for k in ks]
@@ -458,11 +466,20 @@ def reductions(q, ix, n, fam_n):
     return [(a, b) for a, b in out if a is not None]
 
 
+PATH_FREE_DEVS = ("distinct_window_twice",)      # implemented after the executor pipeline, whatever the plan
+
+
+def dev_signature(dev, pc):
+    return "dev:%s" % dev if dev in PATH_FREE_DEVS else "dev:%s|%s" % (dev, pc)
+
+
 def key_kind(src, k):
     if k["k"] == "ord":
         return "ord"
     if src == "group":     # c1 is the grouping column, c2 and c3 are aggregates
         return "col" if k["x"] == "c1" else "agg" if k["x"] in ("c2", "c3") else "aggexpr"
+    if src == "join" and k["x"] == "c2":
+        return "col(y.id)"          # the right-hand column whose unqualified name also occurs on the left
     return "col" if k["x"] in ("c1", "c2", "c3") else "expr"
 
 
@@ -570,7 +587,7 @@ def tlc_validate(pairs, chk, thorough):
         raise vlib.ToolError("Trace_OrderLimit judged %d of %d observations" % (len(got), len(pairs)))
     for i, (c, obs, mv) in enumerate(pairs):
         if got[i] != (mv[0], list(mv[1])):
-            raise vlib.ToolError("python mirror of Verdict disagrees with TLC: %s obs=%s mirror=%s TLC=%s" % (render(c["q"]), obs, mv, got[i]))
+            raise vlib.ToolError("python mirror of Verdict disagrees with TLC: %s (indexed copy: %s) obs=%s mirror=%s TLC=%s" % (render(c["q"]), c["q"].get("ix"), obs, mv, got[i]))
     return len(pairs)
 
 
@@ -627,16 +644,19 @@ def run(chk):
     verdicts = {}
     for c in cases:
         for ix in (False, True):
-            verdicts[(c["_key"], ix)] = judge(c, results[(c["_key"], ix)], selftest)
+            verdicts[(c["_key"], ix)] = judge(c, results[(c["_key"], ix)], selftest, ix)
     failing = [(k, ix) for (k, ix), (kind, _) in verdicts.items() if kind != "ok"]
     # confirm every failure on a fresh database (a panic earlier in the same session must not be blamed on a later query)
     for ix in (False, True):
-        fk = [k for (k, i) in failing if i == ix]
-        if fk:
-            res = ordagg.run_queries(ordagg.setup_sql(indexed=ix), [render(bykey[k]["q"]) for k in fk], batch=40)
-            for k, r in zip(fk, res):
-                results[(k, ix)] = r
-                verdicts[(k, ix)] = judge(bykey[k], r, selftest)
+        # queries that panic are confirmed in batches of their own, so that a confirmed non-panicking failure never
+        # shares a session with a panic
+        for want_panic in (False, True):
+            fk = [k for (k, i) in failing if i == ix and verdicts[(k, i)][0].startswith("panic:") == want_panic]
+            if fk:
+                res = ordagg.run_queries(ordagg.setup_sql(indexed=ix), [render(bykey[k]["q"]) for k in fk], batch=250)
+                for k, r in zip(fk, res):
+                    results[(k, ix)] = r
+                    verdicts[(k, ix)] = judge(bykey[k], r, selftest, ix)
     chk.mark("judge")
 
     # cross-check the mirror with TLC: non-exact accepted outputs, explained and unexplained rejections
@@ -645,13 +665,14 @@ def run(chk):
         if obs is None:
             continue
         c = bykey[k]
-        mv = verdict(obs, c)
+        mv = verdict(obs, c, ix)
+        cq = dict(c, q=dict(c["q"], ix=ix))
         if kind == "ok" and not c["det"]:
-            pool["ok_tie"].append((c, obs, mv))
+            pool["ok_tie"].append((cq, obs, mv))
         elif kind.startswith("dev:"):
-            pool["dev"].append((c, obs, mv))
+            pool["dev"].append((cq, obs, mv))
         elif kind in ("count", "rows", "order", "shape"):
-            pool["bad"].append((c, obs, mv))
+            pool["bad"].append((cq, obs, mv))
     per = 3000 if thorough else 500
     pairs = []
     for name in ("ok_tie", "dev", "bad"):
@@ -674,6 +695,7 @@ def run(chk):
         return "content" if kind in ("count", "rows", "order") else kind
 
     sigs = collections.Counter()
+    compound = collections.Counter()
     paths = collections.Counter()
     fam_n = {fam_key(c["q"]): len(c["rows"]) for c in cases}
     minimal_cache = {}
@@ -713,18 +735,23 @@ def run(chk):
         if kind == "missing":
             raise vlib.ToolError("query not executed: %s" % render(c["q"]))
         if kind.startswith("dev:"):
-            sig = "%s|%s" % (kind, pc)
+            # a compound explanation is known only if every deviation in it is known: one signature per deviation
+            sig_list = [dev_signature(d, pc) for d in kind[4:].split("+")]
             mk, mix = key, ix
         else:
             mk, mix = minimise(key, ix, kind)
             mc = bykey[mk]
-            sig = "%s|%s|%s" % (family(kind_of(mk, mix)), path_class(results[(mk, mix)]["plan"], mc["q"]), abstract(mc, mix, structural_only=kind.startswith(("error:", "panic:", "shape"))))
-        sigs[sig] += 1
+            sig_list = ["%s|%s|%s" % (family(kind_of(mk, mix)), path_class(results[(mk, mix)]["plan"], mc["q"]),
+                                      abstract(mc, mix, structural_only=kind.startswith(("error:", "panic:", "shape"))))]
         mc = bykey[mk]
         mr = results[(mk, mix)]
-        chk.classify(sig, {"sql": render(mc["q"]), "indexed": mix, "plan": mr["plan"], "case": {k: v for k, v in mc.items() if k != "_key"},
-                           "observed": mr["res"], "reduced_from": render(c["q"]) if (mk, mix) != (key, ix) else None,
-                           "expected": ("exactly " if mc["det"] else "one admissible answer: ") + json.dumps(ordagg.denull(mc["ans"]))})
+        for sig in sig_list:
+            sigs[sig] += 1
+            chk.classify(sig, {"sql": render(mc["q"]), "indexed": mix, "plan": mr["plan"], "case": {k: v for k, v in mc.items() if k != "_key"},
+                               "observed": mr["res"], "verdict": verdicts[(mk, mix)][0],
+                               "reduced_from": render(c["q"]) if (mk, mix) != (key, ix) else None,
+                               "expected": ("exactly " if mc["det"] else "one admissible answer: ") + json.dumps(ordagg.denull(mc["ans"]))})
+        compound[kind if kind.startswith("dev:") else sig_list[0]] += 1
     chk.mark("classify")
 
     judged = len(verdicts)
@@ -740,7 +767,7 @@ def run(chk):
         "predicate_only_comparisons": sum(1 for c in cases if not c["det"]) * 2,
         "observations_validated_by_tlc": validated,
         "classes_generated": counts, "by_path": {"%s:%s" % k: v for k, v in sorted(paths.items())},
-        "divergence_signatures": dict(sigs),
+        "divergence_signatures": dict(sigs), "divergences_by_full_explanation": dict(compound),
         "samples": [{"sql": render(c["q"]), "expected": ordagg.denull(c["ans"]), "unique_answer": c["det"],
                      "observed": results[(c["_key"], False)]["res"], "plan": results[(c["_key"], False)]["plan"],
                      "verdict": verdicts[(c["_key"], False)][0]} for c in sample_cases],
